@@ -1,4 +1,4 @@
-import BR.Lemmas.LruOrder
+import BR.Lemmas.LruPresent
 import BR.Bridge.Lru
 /-!
 # C05 — eviction is least-recently-used first and only under space pressure
@@ -84,36 +84,8 @@ and the item fits next to the bytes reserved for other requests in flight
 acceptance), the key is in the index, at the most-recent end, with the new value. -/
 theorem add_present_when_fits {l : Lru} (h : Inv l) (k : String) (v : Item)
     (hok : (add l k v).2 = .ok) (hfit : l.res + roundUp4k v.sizeOnDisk ≤ l.maxSize) :
-    ∃ e, (add l k v).1.order.getLast? = some e ∧ e.key = k ∧ e.val = v := by
-  obtain ⟨n, hn, h1, _, h3, _, _, _⟩ := add_ok_spec l k v hok
-  -- the list ends with the new element; show n < length
-  have hshape : ∃ front e, addOrder l k v = front ++ [e] ∧ e.key = k ∧ e.val = v ∧
-      l.cur - sumDisk front + addDelta l k v = l.res + roundUp4k v.sizeOnDisk := by
-    unfold addOrder addDelta
-    cases hf : find? l k with
-    | some ee =>
-      obtain ⟨hp, _, hk⟩ := perm_of_find h.toWf hf
-      have hsd := sumDisk_perm hp
-      simp only [sumDisk_cons, Elem.rdisk] at hsd
-      refine ⟨_, _, rfl, hk, rfl, ?_⟩
-      have := h.cur_eq
-      simp only; omega
-    | none =>
-      refine ⟨_, _, rfl, rfl, rfl, ?_⟩
-      have := h.cur_eq
-      simp only; omega
-  obtain ⟨front, e, hsh, hk, hv, hsum⟩ := hshape
-  have hlen : (addOrder l k v).length = front.length + 1 := by rw [hsh]; simp
-  have hnlt : n ≤ front.length := by
-    by_cases hc : n ≤ front.length
-    · exact hc
-    · exfalso
-      have := h3 front.length (by omega)
-      rw [hsh, List.take_left' rfl] at this
-      omega
-  refine ⟨e, ?_, hk, hv⟩
-  rw [h1, hsh, List.drop_append_of_le_length hnlt]
-  simp
+    ∃ e, (add l k v).1.order.getLast? = some e ∧ e.key = k ∧ e.val = v :=
+  BR.Lru.add_present h k v hok hfit
 
 /-! non-vacuity -/
 example : (add (run (init 12288 0) [.add "cas/a" ⟨1, 4000, "r", false⟩, .add "cas/b" ⟨1, 4000, "r", false⟩,
